@@ -64,6 +64,21 @@ Theorem C02_rmsd_atomPermutation : forall (q : Q4) ref perms g,
 Proof. intros. split; [apply cv_rmsd_perm_nil | apply cv_rmsd_perm_min]. Qed.
 Print Assumptions C02_rmsd_atomPermutation.
 
+(* eigenvector with differenceVector / normalizeVector: the prepared vector (eigvec_prepare) has unit norm with
+   normalizeVector; without options it is the centred vector; the projection is invariant under rigid motions *)
+Theorem C02_eigenvector_options : forall (M : M3) (q q' qd : Q4) (difference : bool) (ref vec v : list V3) t g,
+  cv_eigenvector_v Rops q ref (eigvec_prepare Rops false false q ref vec) g = cv_eigenvector Rops q ref vec g /\
+  (0 < vnorm2_sum Rops (if difference then map (fun pr => v3sub Rops (rotate Rops qd (fst pr)) (snd pr)) (combine (center_pts Rops vec) (center_pts Rops ref))
+                        else center_pts Rops vec) ->
+   vnorm2_sum Rops (eigvec_prepare Rops difference true qd ref vec) = 1) /\
+  (proper_rotation M -> g <> [] -> unique_optimum (fit_pairs Rops ref g) ->
+   is_optimal q (fit_pairs Rops ref g) -> is_optimal q' (fit_pairs Rops ref (shift_group t (rot_group M g))) ->
+   cv_eigenvector_v Rops q' ref v (shift_group t (rot_group M g)) = cv_eigenvector_v Rops q ref v g).
+Proof.
+  intros. split; [apply cv_eigenvector_v_centered | split; [apply eigvec_normalized | apply eigenvector_v_rigid]].
+Qed.
+Print Assumptions C02_eigenvector_options.
+
 (* a group fitted through a separate fittingGroup (fitg): its coordinates in the fitted frame are unchanged by a rigid
    motion of all atoms; with rotateToReference off, by translations *)
 Theorem C02_rigid_invariant_fitting_group : forall (M : M3) (q q' : Q4) ref t fitg g, proper_rotation M -> fitg <> [] ->
@@ -144,6 +159,16 @@ Theorem C02_coordNum_pairlist : forall r0 r0v en ed tol cell g1 g2,
      cv_coordnum_pl Rops pl r0 r0v en ed tol cell g1 g2 <= cv_coordnum Rops r0 r0v en ed tol cell g1 g2).
 Proof. intros. split; [apply coordnum_pairlist_exact | intros; apply coordnum_pairlist_le; assumption]. Qed.
 Print Assumptions C02_coordNum_pairlist.
+
+(* the pair lists of selfCoordNum (pairs i < j) and of coordNum with group2CenterOnly (atom, centre of group2): built
+   at the current positions they reproduce the full value exactly *)
+Theorem C02_pairlist_selfCoordNum_center : forall r0 r0v en ed tol cell g g1 g2, 0 <= tol ->
+  pl_value_pts Rops (pl_build_pts Rops r0 None en ed tol cell (self_pts g)) r0 None en ed tol cell (self_pts g) =
+  cv_selfcoordnum Rops r0 en ed tol cell g /\
+  pl_value_pts Rops (pl_build_pts Rops r0 r0v en ed tol cell (center_pairs Rops g1 g2)) r0 r0v en ed tol cell (center_pairs Rops g1 g2) =
+  cv_coordnum_center Rops r0 r0v en ed tol cell g1 g2.
+Proof. intros. split; [apply selfcoordnum_pairlist_exact | apply coordnum_center_pairlist_exact]; assumption. Qed.
+Print Assumptions C02_pairlist_selfCoordNum_center.
 
 (* the pair list as state over steps and run boundaries (pl_step: rebuilt when the RELATIVE step is a multiple of
    pairListFrequency, used as it is otherwise; pl_session: every run starts at relative step 0 with whatever list the
